@@ -3270,7 +3270,11 @@ void Analyser::AnalyserImpl::analyseModel(const ModelPtr &model)
         AnalyserEquationPtrs equationDependencies;
 
         for (const auto &variableDependency : variableDependencies) {
-            auto variable = v2avMappings[variableDependency];
+            // Note: a dependency may have been recorded before the primary
+            //       variable of its equivalence class was changed, hence we
+            //       look it up through its internal variable.
+
+            auto variable = aiv2avMappings[Analyser::AnalyserImpl::internalVariable(variableDependency)];
 
             if (variable != nullptr) {
                 for (const auto &equation : variable->equations()) {
